@@ -1,0 +1,64 @@
+//go:build verif
+
+// Contracts for the deductive verifier in /verif (govc). Only compiled with -tags verif.
+
+package state
+
+// ---- C01: what aborting does to a task, and when a task is marked failed ----------------------
+
+// the status abort decisions look at: a waiting task counts as what it will be once the wait is over
+//@ define effSt(t *Task) = ite(stOf(t) == WaitStatus, t.waitedStatus, stOf(t))
+
+// the only status changes an abort makes: not started -> Hold, running -> Abort, finished -> Undo
+//@ define abortStep(e Status, s Status) = (e == DoStatus && s == HoldStatus) || (e == DoingStatus && s == AbortStatus) || (e == DoneStatus && s == UndoStatus)
+
+// statuses an abort acts on
+//@ define isSource(e Status) = e == DoStatus || e == DoingStatus || e == DoneStatus
+
+//@ func (*Task).WaitedStatus
+//@   props C01
+//@   ensures result == t.waitedStatus
+
+//@ func taskEffectiveStatus
+//@   props C01
+//@   ensures result == effSt(t)
+
+//@ func (*Task).Lanes
+//@   props C01
+//@   ensures (len(t.lanes) == 0 ==> len(result) == 1 && result[0] == 0) && (len(t.lanes) != 0 ==> result == t.lanes)
+
+// aborting lanes: every task keeps its status or makes exactly one abort step from the status it had;
+// the lanes asked for are recorded as aborted
+//@ func (*Change).abortLanes
+//@   props C01
+//@   ensures [step] forall x *Task :: {x.status} x.status == old(x.status) || abortStep(old(effSt(x)), x.status)
+//@   ensures [waited] forall x *Task :: {x.waitedStatus} x.waitedStatus == old(x.waitedStatus)
+//@   ensures [seen-mono] forall k string :: {seenTasks[k]} old(seenTasks[k]) ==> seenTasks[k]
+//@   ensures [lanes-mono] forall k int :: {abortedLanes[k]} old(abortedLanes[k]) ==> abortedLanes[k]
+//@   ensures [ids] forall x *Task :: {x.id} x.id == old(x.id)
+//@   ensures [handled] (forall a *Task, b *Task :: {a.id, b.id} a.id == b.id ==> a == b) ==> forall x *Task :: {x.status} seenTasks[x.id] && !old(seenTasks[x.id]) ==> !isSource(effSt(x))
+//@   ensures [lanes] forall j int :: 0 <= j && j < len(lanes) ==> abortedLanes[lanes[j]]
+//@   loop 0: invariant forall k int :: {abortedLanes[k]} abortedLanes[k] == old(abortedLanes[k])
+//@   loop 1: invariant forall k int :: {abortedLanes[k]} abortedLanes[k] == old(abortedLanes[k])
+//@   loop 5: invariant -1 <= idx5 && idx5 < len(lanes)
+//@   loop 5: invariant forall k int :: {abortedLanes[k]} old(abortedLanes[k]) ==> abortedLanes[k]
+//@   loop 5: invariant forall j int :: 0 <= j && j <= idx5 ==> abortedLanes[lanes[j]]
+
+//@ func (*Change).AbortLanes
+//@   props C01
+//@   ensures [step] forall x *Task :: {x.status} x.status == old(x.status) || abortStep(old(effSt(x)), x.status)
+//@   ensures [waited] forall x *Task :: {x.waitedStatus} x.waitedStatus == old(x.waitedStatus)
+
+// the completion handler of a task: on an error the task's lanes are aborted BEFORE the task is marked
+// failed (so the change cannot be seen in Error while abortable tasks are still pending), and a normal
+// return moves the task only along Doing->Done, Abort->Undo (it had finished), Undoing->Undone
+//@ func (*TaskRunner).run$1
+//@   props C01 C03
+//@   guard call Errorf: [error-verbatim] arg0 == t && arg1const
+//@   guard call SetStatus: [error-after-abort] arg1 == ErrorStatus ==> called("(*TaskRunner).abortLanes")
+//@   guard call SetStatus: [outcome] arg0 == t && ((stOf(t) == DoingStatus && arg1 == DoneStatus) || (stOf(t) == AbortStatus && arg1 == UndoStatus) || (stOf(t) == UndoingStatus && arg1 == UndoneStatus) || arg1 == ErrorStatus)
+//@   guard call (*TaskRunner).abortLanes: [own-lanes] arg1 == t.state.changes[t.change] && (len(t.lanes) != 0 ==> arg2 == t.lanes) && (len(t.lanes) == 0 ==> len(arg2) == 1 && arg2[0] == 0)
+
+//@ func (*TaskRunner).abortLanes
+//@   props C01
+//@   guard call AbortLanes: arg0 == chg && arg1 == lanes
